@@ -27,6 +27,7 @@ type leakObs struct {
 	fd         int
 	classes    map[string]int
 	cacheFDs   []string
+	conns      map[string]int // connection-table trouble (see socks.go)
 	reserved   int64
 	numFiles   int
 	dirFiles   int
@@ -96,6 +97,16 @@ func (fx *fixture) observe() leakObs {
 	}
 	o.fd, o.classes, o.cacheFDs = fx.fdClasses()
 	o.cacheFDs = fx.newCacheFDs(o.cacheFDs)
+	if ct, err := fx.connTrouble(); err == nil {
+		for k, v := range ct {
+			if v > fx.leakedConns[k] { // reported before: stays until the process ends
+				if o.conns == nil {
+					o.conns = map[string]int{}
+				}
+				o.conns[k] = v
+			}
+		}
+	}
 	return o
 }
 
@@ -123,12 +134,23 @@ func (fx *fixture) rememberCacheFDs(files []string) {
 	}
 }
 
+// fdSlack is the number of descriptors above the warm-up baseline that bounded
+// pools explain: two idle connections per outgoing host (origin, backend), or
+// the highest plateau the N-vs-2N test has established so far.
+func (fx *fixture) fdSlack() int {
+	if fx.slack > 4 {
+		return fx.slack
+	}
+	return 4
+}
+
 func (o leakObs) persistentTrouble() bool {
-	return len(o.sigDiff) > 0 || o.reserved != 0 || o.dirFiles > o.numFiles || len(o.cacheFDs) > 0
+	return len(o.sigDiff) > 0 || o.reserved != 0 || o.dirFiles > o.numFiles || len(o.cacheFDs) > 0 || len(o.conns) > 0
 }
 
 // takeBaseline is called after the warm-up, with no request in flight.
 func (fx *fixture) takeBaseline() bool {
+	fx.slack = 0
 	fx.srv.HTTPClient.CloseIdleConnections()
 	var last leakObs
 	// Two consecutive identical observations = settled.
@@ -252,12 +274,32 @@ func (fx *fixture) leakCheck(when string) {
 			map[string]any{"when": when, "open_cache_files": head(o.cacheFDs, 8), "requests_since_last_clean_check": fx.windowSummary()})
 		fx.rememberCacheFDs(o.cacheFDs)
 	}
+	for k, v := range o.conns {
+		clean = false
+		what := fmt.Sprintf("%d connection(s) of kind %q are still held by the server with no request in flight", v, k)
+		switch {
+		case k == "close-wait":
+			what = fmt.Sprintf("%d socket(s) in CLOSE_WAIT: the peer has closed, the server still holds its end although no request is in flight", v)
+		case strings.HasPrefix(k, "outgoing:"):
+			what = fmt.Sprintf("%d established connections to the %s although no request is in flight (an idle pool keeps at most two): requests that ended still hold their outgoing connection", v, strings.TrimPrefix(k, "outgoing:"))
+		}
+		fx.violation("C14:leak:conn:"+k, what, map[string]any{"when": when, "count": v, "requests_since_last_clean_check": fx.windowSummary()})
+		if fx.leakedConns == nil {
+			fx.leakedConns = map[string]int{}
+		}
+		fx.leakedConns[k] = v
+	}
 	point := map[string]any{"requests": fx.fuzzOps, "fd": o.fd, "baseline_fd": fx.base.fd, "classes": o.classes}
 	// Descriptor growth: N vs 2N. More descriptors than the baseline after N
 	// requests => send the same N requests again; growing again = leak,
 	// unchanged = bounded pool (idle backend connections, lazily opened files).
-	if o.fd > fx.base.fd && len(o.cacheFDs) == 0 && len(fx.window) > 0 {
-		excess1 := o.fd - fx.base.fd
+	// Idle pooled connections (net/http keeps up to two per backend/origin host)
+	// come and go: only an excess beyond that slack is examined, and only growth
+	// by at least two descriptors under the repeated requests counts. Descriptors
+	// on cache files have their own oracle above.
+	nonCache := func(x leakObs) int { return x.fd - x.classes["cache-file"] }
+	if nonCache(o) > fx.base.fd+fx.fdSlack() && len(fx.window) > 0 {
+		excess1 := nonCache(o) - fx.base.fd
 		fx.r.Count("fdgrowth.reruns")
 		for _, w := range fx.window {
 			if fx.dead || fx.child.Exited() {
@@ -279,16 +321,16 @@ func (fx *fixture) leakCheck(when string) {
 		fx.origin.ReleaseStalls()
 		o2 := fx.settle(settleMax)
 		if o2.err == nil {
-			excess2 := o2.fd - fx.base.fd
+			excess2 := nonCache(o2) - fx.base.fd
 			point["fd_after_2N"] = o2.fd
 			point["classes_after_2N"] = o2.classes
 			grown := map[string]int{}
 			for k, v := range o2.classes {
-				if v > o.classes[k] {
+				if v > o.classes[k] && k != "cache-file" {
 					grown[k] = v - o.classes[k]
 				}
 			}
-			if excess2 > excess1 && excess2-excess1 >= (excess1+1)/2 {
+			if excess2-excess1 >= 2 {
 				clean = false
 				cls := "mixed"
 				if len(grown) == 1 {
@@ -300,10 +342,12 @@ func (fx *fixture) leakCheck(when string) {
 					fmt.Sprintf("open descriptors grow with the number of requests: baseline %d, after N requests %d, after the same N requests again %d (settled, no request in flight)", fx.base.fd, o.fd, o2.fd),
 					map[string]any{"when": when, "baseline_classes": fx.base.classes, "classes_N": o.classes, "classes_2N": o2.classes, "grown": grown, "requests_in_window": fx.windowSummary()})
 				// continue from here: later checks compare with the current level
-				fx.base.fd, fx.base.classes = o2.fd, o2.classes
+				fx.base.fd, fx.base.classes = nonCache(o2), o2.classes
 			} else {
 				fx.r.Count("fdgrowth.plateau")
-				fx.base.fd, fx.base.classes = o2.fd, o2.classes // bounded pool: part of the steady state
+				if excess2 > fx.slack {
+					fx.slack = excess2 // bounded: part of the steady state
+				}
 			}
 		}
 	}
@@ -351,9 +395,42 @@ func (fx *fixture) cacheFDProbe(o *op) {
 	if fx.child.Exited() {
 		return
 	}
+	extraSigs := ""
+	if dump, err := fx.child.GoroutineDump(); err == nil {
+		extraSigs = lib.SigString(lib.SigDiff(fx.base.sigs, lib.GoroutineSignatures(dump)))
+	}
 	fx.violation("C14:leak:fd:cache-file:"+o.ep+":"+o.gen,
 		fmt.Sprintf("%d descriptor(s) on cache files are still open %v after the client aborted the transfer and no other request is in flight", len(files), wait),
-		map[string]any{"open_cache_files": head(files, 8)})
+		map[string]any{"open_cache_files": head(files, 8), "goroutines_not_in_baseline": extraSigs})
+	fx.rememberCacheFDs(files)
+}
+
+// cacheFDsBefore runs before a request whose descriptors will be probed: what
+// is open on cache files now (and stays open for a moment although nothing is
+// in flight) was left behind by an earlier request of the window.
+func (fx *fixture) cacheFDsBefore() {
+	var files []string
+	deadline := time.Now().Add(8 * time.Second) // generous: background uploads to a proxy backend may still read their file
+	sleep := 2 * time.Millisecond
+	for {
+		_, _, files = fx.fdClasses()
+		files = fx.newCacheFDs(files)
+		if len(files) == 0 {
+			return
+		}
+		if time.Now().After(deadline) {
+			break
+		}
+		time.Sleep(sleep)
+		if sleep < 500*time.Millisecond {
+			sleep *= 2
+		}
+	}
+	if fx.child.Exited() {
+		return
+	}
+	fx.violation("C14:leak:fd:cache-file", fmt.Sprintf("the server holds %d open descriptor(s) on cache files with no request in flight (left behind by an earlier request of the journal)", len(files)),
+		map[string]any{"when": "before the next probed request", "open_cache_files": head(files, 8), "requests_since_last_clean_check": fx.windowSummary()})
 	fx.rememberCacheFDs(files)
 }
 
